@@ -413,6 +413,8 @@ package main
 //@ func (*MultiEpoch) GetVersion
 
 //@ func (*MultiEpoch) GetBlock
+//@   # C02 (previousBlockhash), as in handleGetBlock: the omission branch only when the parent slot is outside this epoch / slot 0
+//@   fncall klog.V(4).Infof#3 requires !((parentSlot != 0 || slot == 1) && slottools.CalcEpochForSlot(parentSlot) == epochNumber)
 //@   requires ctx != nil && params != nil
 //@   requires held(multi.mu) == 0 && validEpochSet(multi) && multi.options != nil
 //@   ensures held(multi.mu) == 0
